@@ -502,6 +502,8 @@ def eval_case(case):
         for row in (layout_rows(case["cfg"]) if case["cfg"] not in DATA_MODELS else layout_rows_static(case["cfg"])):
             if row[0] == "S" and (row[2], row[3]) != (row[4], row[5]):
                 msgs.append("%s: struct %s: C size/align %s/%s, C++ %s/%s" % (case["cfg"], row[1], row[2], row[3], row[4], row[5]))
+            if row[0] == "O" and any(int(v) in (2**32 - 1, 2**64 - 1) for v in row[2:6]):
+                continue        # one side has no member of that name: not comparable (see MEMBER_PROBE in harness/c19_layout.cpp)
             if row[0] == "O" and ((row[2] != row[3]) or (row[4] != row[5])):
                 msgs.append("%s: member %s: C offset/size %s/%s, C++ %s/%s" % (case["cfg"], row[1], row[2], row[4], row[3], row[5]))
             if row[0] == "K" and row[2] != "1":
